@@ -1,4 +1,5 @@
 import RlModel.Model.Type
+import RlModel.Lemmas.KernelLen
 /-!
 C16 — declared types and constraints hold for every stored and returned value.
 
@@ -257,11 +258,9 @@ theorem type_soundness (chunk : List Col) (n : Nat) (e : KExpr) :
           have : c.ty = ca.ty := by
             cases ca with
             | int w x =>
-              cases w <;> simp [Col.neg] at hE
-              · cases hk : unaryOp (negW .w32) x <;> simp [hk] at hE
-                subst hE; rfl
-              · cases hk : unaryOp (negW .w64) x <;> simp [hk] at hE
-                subst hE; rfl
+              simp only [Col.neg] at hE
+              cases hk : unaryOp (negW w) x <;> simp only [hk] at hE <;> cases hE
+              rfl
             | null k => simp [Col.neg] at hE
             | bool x => simp [Col.neg] at hE
             | str x => simp [Col.neg] at hE
@@ -314,13 +313,9 @@ theorem type_soundness (chunk : List Col) (n : Nat) (e : KExpr) :
                 split at hT
                 · cases hT
                   have : c.ty = ct.ty := by
-                    cases cc <;> cases ct <;> cases ce <;> simp only [Col.select] at hE <;>
-                      try (cases hE)
-                    rename_i s wa x wb y
-                    split at hE
-                    · cases hk : selectOp s x y <;> simp only [hk] at hE <;> cases hE
-                      rfl
-                    · cases hE
+                    obtain ⟨s, _, h2⟩ := select_inv cc ct ce c hE
+                    rcases h2 with ⟨w, x, y, r, rfl, _, _, rfl⟩ | ⟨x, y, r, rfl, _, _, rfl⟩ |
+                      ⟨x, y, r, rfl, _, _, rfl⟩ <;> rfl
                   rw [this]; exact et
                 · cases hT
         | err => simp at hE
@@ -534,6 +529,23 @@ theorem insert_value_type (t : Ty) (v v' : IVal) (h : castI t v = .ok v') :
     | (split at h <;> first | (cases h; simp [IVal.dynTy]) | cases h)
     | (split at h <;> (try split at h) <;> first | (cases h; simp [IVal.dynTy]) | cases h))
 
+theorem castCol_ok (d : ColDecl) (v x : IVal) (h : castCol d v = .ok x) :
+    castI d.ty v = .ok x ∧ (d.nullable = false → x ≠ .null) := by
+  unfold castCol at h
+  cases hc : castI d.ty v with
+  | ok y =>
+    simp only [hc] at h
+    split at h
+    · cases h
+    · rename_i hn
+      cases h
+      refine ⟨rfl, ?_⟩
+      intro hd hx
+      subst hx
+      simp [hd] at hn
+  | err => simp [hc] at h
+  | panic => simp [hc] at h
+
 theorem insert_row_types (decls : List ColDecl) (vs row : List IVal)
     (h : castRow decls vs = .ok row) :
     row.length = decls.length ∧
@@ -547,7 +559,7 @@ theorem insert_row_types (decls : List ColDecl) (vs row : List IVal)
     | nil => simp [castRow] at h
     | cons v vs =>
       simp only [castRow] at h
-      cases hc : castI d.ty v with
+      cases hc : castCol d v with
       | ok x =>
         cases hr : castRow ds vs with
         | ok r =>
@@ -558,7 +570,7 @@ theorem insert_row_types (decls : List ColDecl) (vs row : List IVal)
           intro p hp
           simp at hp
           rcases hp with rfl | hp
-          · exact insert_value_type d.ty v x hc
+          · exact insert_value_type d.ty v x (castCol_ok d v x hc).1
           · exact h2 p hp
         | err => simp [hc, hr] at h
         | panic => simp [hc, hr] at h
@@ -602,18 +614,6 @@ def NotNullEnforced (e : Engine) : Prop := ∀ (decls : List ColDecl) (rows : Li
 def NoSilentReplacement (e : Engine) : Prop := ∀ (decls : List ColDecl) (vs row : List IVal),
   castRow decls vs = .ok row → readRow e decls row = row
 
-/-- Witness (memory engine): `INSERT INTO t(a INT NOT NULL) VALUES (NULL)` succeeds and the
-column then holds NULL. -/
-theorem not_null_enforced_unsound : ¬ NotNullEnforced .mem := by
-  intro h
-  have := h [⟨.int .w32, false⟩] [[.null]] [.null] (by decide)
-  exact this (⟨.int .w32, false⟩, .null) (by simp) rfl rfl
-
-/-- Witness (disk engine): the same NULL is read back as 0. -/
-theorem null_becomes_default_unsound : ¬ NoSilentReplacement .disk := by
-  intro h
-  exact absurd (h [⟨.int .w32, false⟩] [.null] [.null] (by decide)) (by decide)
-
 theorem readRow_of_respects (e : Engine) (decls : List ColDecl) (row : List IVal)
     (hlen : row.length = decls.length) (h : RowRespectsNotNull decls row) :
     readRow e decls row = row := by
@@ -629,45 +629,117 @@ theorem readRow_of_respects (e : Engine) (decls : List ColDecl) (row : List IVal
       congr 1
       cases e <;> cases hn : d.nullable <;> cases v <;> simp_all [readBack]
 
-/-- Under the hypothesis the code never checks — the inserted row has no NULL in a NOT NULL
-column — both engines return exactly the stored (converted) row. -/
-theorem no_silent_replacement_partial (e : Engine) (decls : List ColDecl) (vs row : List IVal)
-    (hc : castRow decls vs = .ok row) (h : RowRespectsNotNull decls row) :
-    readRow e decls row = row :=
-  readRow_of_respects e decls row (insert_row_types decls vs row hc).1 h
-
-theorem readRow_mem (decls : List ColDecl) (row : List IVal)
-    (hlen : row.length = decls.length) : readRow .mem decls row = row := by
-  induction decls generalizing row with
-  | nil => cases row <;> simp_all [readRow]
+/-- INSERT stores no NULL in a NOT NULL / PRIMARY KEY column (since /repo 652f6b6). -/
+theorem castRow_respects (decls : List ColDecl) (vs row : List IVal)
+    (h : castRow decls vs = .ok row) : RowRespectsNotNull decls row := by
+  induction decls generalizing vs row with
+  | nil =>
+    cases vs <;> simp [castRow] at h
+    subst h; intro p hp; simp at hp
   | cons d ds ih =>
-    cases row with
-    | nil => simp at hlen
+    cases vs with
+    | nil => simp [castRow] at h
     | cons v vs =>
-      simp only [readRow, ih vs (by simpa using hlen)]
-      congr 1
+      simp only [castRow] at h
+      cases hc : castCol d v with
+      | ok x =>
+        cases hr : castRow ds vs with
+        | ok r =>
+          simp [hc, hr] at h
+          subst h
+          intro p hp
+          simp at hp
+          rcases hp with rfl | hp
+          · exact (castCol_ok d v x hc).2
+          · exact ih vs r hr p hp
+        | err => simp [hc, hr] at h
+        | panic => simp [hc, hr] at h
+      | err => simp [hc] at h
+      | panic => simp [hc] at h
 
-/-- The memory engine always returns what was stored. -/
-theorem mem_reads_back_exactly : NoSilentReplacement .mem := by
+/-- Both engines return exactly the stored (converted) row: no value is silently replaced. -/
+theorem no_silent_replacement (e : Engine) : NoSilentReplacement e := by
   intro decls vs row hc
-  exact readRow_mem decls row (insert_row_types decls vs row hc).1
+  exact readRow_of_respects e decls row (insert_row_types decls vs row hc).1
+    (castRow_respects decls vs row hc)
+
+theorem insertAll_mem (decls : List ColDecl) (rows : List (List IVal)) (row : List IVal)
+    (h : row ∈ insertAll decls rows) : ∃ vs, castRow decls vs = .ok row := by
+  induction rows with
+  | nil => simp [insertAll] at h
+  | cons r rs ih =>
+    simp only [insertAll] at h
+    cases hc : castRow decls r with
+    | ok x =>
+      simp [hc] at h
+      rcases h with rfl | h
+      · exact ⟨r, hc⟩
+      · exact ih h
+    | err => simp [hc] at h; exact ih h
+    | panic => simp [hc] at h; exact ih h
+
+/-- `not_null_enforced` — holds on both engines since /repo 652f6b6: after any sequence of
+INSERTs, `SELECT *` shows no NULL in a NOT NULL / PRIMARY KEY column. -/
+theorem not_null_enforced (e : Engine) : NotNullEnforced e := by
+  intro decls rows row hrow
+  simp only [selectAll, List.mem_map] at hrow
+  obtain ⟨stored, hs, rfl⟩ := hrow
+  obtain ⟨vs, hc⟩ := insertAll_mem decls rows stored hs
+  rw [no_silent_replacement e decls vs stored hc]
+  exact castRow_respects decls vs stored hc
+
+/-- Regression (the former witnesses): NULL into a NOT NULL column fails the statement. -/
+theorem not_null_regression :
+    castRow [⟨.int .w32, false⟩] [.null] = .err ∧
+    selectAll .disk [⟨.int .w32, false⟩] [[.null], [.int .w32 7]] = [[.int .w32 7]] := by decide
 
 /-! ## The reason tags are exactly the forced hypotheses -/
 
+theorem castI_null_inv (t : Ty) (v : IVal) (h : castI t v = .ok .null) : v = .null := by
+  cases v with
+  | null => rfl
+  | bool b => cases t <;> simp [castI] at h
+  | int w x =>
+    cases t <;> simp [castI] at h
+    split at h <;> cases h
+  | str s0 =>
+    cases t <;> simp [castI] at h
+    · split at h <;> (try split at h) <;> cases h
+    · split at h <;> (try split at h) <;> cases h
+  | dec x =>
+    cases t <;> simp [castI] at h
+    split at h <;> cases h
+
 theorem specCol_eq_of_no_tag (e : Engine) (d : ColDecl) (v : IVal) (h : colTags e d v = []) :
-    specCol d v = castI d.ty v := by
+    specCol d v = castCol d v := by
   unfold colTags at h
-  unfold specCol
-  split at h
-  · cases e <;> simp at h
-  · rename_i hn
-    simp only [hn]
+  unfold specCol castCol
+  by_cases hn : (v == IVal.null && !d.nullable) = true
+  · simp only [hn, if_true]
+    have hv : v = .null := by
+      simp only [Bool.and_eq_true, beq_iff_eq] at hn; exact hn.1
+    subst hv
+    simp only [castI]
+    simp only [Bool.and_eq_true, beq_self_eq_true, true_and] at hn
+    simp [hn]
+  · simp only [hn, Bool.false_eq_true, if_false] at h ⊢
     cases hc : castI d.ty v with
     | ok v' =>
       simp only [hc] at h ⊢
       split at h
       · simp at h
-      · rename_i hl; simp [hl]
+      · rename_i hl
+        simp only [hl, Bool.false_eq_true, if_false]
+        -- a non-NULL value never converts to NULL, and a NULL here means a nullable column
+        by_cases hx : (v' == IVal.null && !d.nullable) = true
+        · exfalso
+          simp only [Bool.and_eq_true, beq_iff_eq] at hx
+          obtain ⟨hx1, hx2⟩ := hx
+          subst hx1
+          have : v = .null := castI_null_inv d.ty v hc
+          subst this
+          simp [hx2] at hn
+        · simp [hx]
     | err => rfl
     | panic => rfl
 
@@ -684,10 +756,10 @@ theorem insert_agrees_with_spec_partial (e : Engine) (decls : List ColDecl) (vs 
       simp only [rowTags, List.append_eq_nil_iff] at h
       simp only [castRow, specRow, specCol_eq_of_no_tag e d v h.1, ih vs h.2]
 
-example : rowTags .disk [⟨.int .w32, false⟩, ⟨.bool, true⟩] [.null, .int .w32 5]
-    = ["notnull:not-enforced:null-read-as-default", "insert:lossy-cast:int->bool"] := by decide
+example : rowTags .disk [⟨.int .w32, true⟩, ⟨.bool, true⟩] [.null, .int .w32 5]
+    = ["insert:lossy-cast:int->bool"] := by decide
 
 example : selectAll .disk [⟨.int .w32, false⟩, ⟨.int .w32, true⟩] [[.null, .null], [.int .w32 1, .dec 27]]
-    = [[.int .w32 0, .null], [.int .w32 1, .int .w32 2]] := by decide
+    = [[.int .w32 1, .int .w32 2]] := by decide
 
 end RlModel
